@@ -33,7 +33,8 @@ fn out_at(x: u8, c: usize) -> u8 {
     }
 }
 
-//@ tier: quick
+//@ tier: thorough
+//@ timeout: 2400
 //@ inst: I = Src (counting source, exact size_hint), F = fn(u8) -> ControlFlow<u8, Src>
 //@ funcs: stack::Stack::next
 //@ bounds: root stream of 0..=2 items, each either an output or a tail call replaced by a child stream of 0..=2 outputs; all (<= 4) outputs and the end taken one by one
